@@ -406,6 +406,14 @@ NextBlock ==
   /\ res' = [op |-> "Block", ok |-> TRUE, msg |-> "", amt |-> block + 1, a |-> NoVal, d |-> 0, act |-> r.act, upd |-> r.upd]
   /\ UNCHANGED <<mbpParam, mbpMax, eff, bal, led>>
 
+\* Staker.Housekeep(b) called directly (the genesis builder does so at block 0 for a chain that starts in PoS)
+HousekeepAt(b) ==
+  LET t == ComputeTransition(CUR, b, MBP)
+      upd == b % E = 0 /\ HasUpdates(t) IN
+  /\ Commit(IF upd THEN ApplyTransition(CUR, t, b) ELSE CUR)
+  /\ res' = [op |-> "Housekeep", ok |-> TRUE, msg |-> "", amt |-> b, a |-> NoVal, d |-> 0, act |-> upd, upd |-> upd]
+  /\ UNCHANGED <<block, mbpParam, mbpMax, eff, bal, led>>
+
 InitWith(vs, b0, m0) ==
   /\ block = b0 /\ mbpParam = m0 /\ mbpMax = MBPOf(m0)
   /\ val = [v \in vs |-> EmptyVal] /\ agg = [v \in vs |-> EmptyAgg] /\ del = <<>>
